@@ -1128,7 +1128,13 @@ impl<E: Effect> Environment<E> {
         if let Some(pending) = self.pending_awaits.get_mut(&awaiter) {
             // This is part of an initial await - collect the response
             if let Some(worker_id) = sender_worker_id {
-                pending.responses.insert(worker_id, results.clone());
+                // Merge rather than replace: a later completion from a worker that has already
+                // answered must not drop that worker's earlier answers for other targets.
+                pending
+                    .responses
+                    .entry(worker_id)
+                    .or_default()
+                    .extend(results.clone());
                 pending.expected_workers.remove(&worker_id);
 
                 // Check if all workers have responded
